@@ -99,6 +99,20 @@ PROPS = {
         phases=[P(kind="fuzz", bin="c09_replies", runs_quick=14000, runs_thorough=3000000, workers_quick=12, workers_thorough=16, max_len=1024, rss=4000, timeout=120, detect_leaks=0)],
         floor_quick=600, floor_thorough=50000,
     ),
+    "C18": P(
+        title="a monitor sees everything that matches and can affect nothing",
+        level="exploration",
+        technique="stateful model-based testing: libFuzzer-generated traffic histories with clients turning into monitors (empty or selective filters) on an in-process bus; ordinary clients are compared with a model in which BecomeMonitor is a disconnect (metamorphic relation), monitors with the exact multiset of client-written and bus-originated frames",
+        level_text=("Exploration: histories of sends of all four types (deliverable, undeliverable, to a monitor's former name), RequestName/ReleaseName, closes and late connects by 3-4 raw clients "
+                    "holding assorted match rules, with up to two clients becoming monitors at any point (while owning or queued for names), with empty or selective filters, or with an invalid rule. "
+                    "After every step each ordinary client's frames must equal the model in which the monitor simply disconnected; each monitor must hold exactly one stamped copy of every client-written "
+                    "message and of every bus-originated frame (replies, errors to refused messages, NameLost/NameAcquired, NameOwnerChanged even without recipients) that matches its filter; registry "
+                    "queries must not mention monitors; a monitor that sends is disconnected without effect on others; an invalid BecomeMonitor changes nothing."),
+        level_note="Single operations only (no batches); filters use type/interface/member keys only (sender=/destination= in monitor filters are [U] with respect to ownership timing); the unprivileged-uid refusal of BecomeMonitor is exercised in C06's multi-user setup, not here; trusts busmodel.cc.",
+        rule=("case = history decoded from fuzzer input. Non-trivial = a monitor is present and afterwards a refused/undeliverable message, an ownership change or a misbehaving monitor occurs; distinct = FNV-1a of the log with unique names renamed."),
+        phases=[P(kind="fuzz", bin="c18_monitor", runs_quick=12000, runs_thorough=3000000, workers_quick=12, workers_thorough=16, max_len=1024, rss=4000, timeout=120, detect_leaks=0)],
+        floor_quick=300, floor_thorough=20000,
+    ),
     "C11": P(
         title="framing independent of chunking",
         level="exploration",
